@@ -43,7 +43,7 @@ static void emit_run(FILE *out, const std::string &id, const std::vector<u32> &i
   // loaded and changed (the whole memory is still compared after every run, so nothing a run does to it goes unseen)
   static VerilatedContext ctx;
   static bool inited = false;
-  if (!inited) { const char *noargs[] = {"rtl_sys"}; ctx.commandArgs(1, noargs); ctx.randReset(0); inited = true; }
+  if (!inited) { const char *noargs[] = {"rtl_sys"}; ctx.commandArgs(1, noargs); ctx.randReset(getenv("VERIF_RANDRESET") ? atoi(getenv("VERIF_RANDRESET")) : 0); if (getenv("VERIF_RANDSEED")) ctx.randSeed(atoi(getenv("VERIF_RANDSEED"))); inited = true; }
   static MODEL top{&ctx, "TOP"};
   static std::vector<u32> before(MEMDEPTH, 0);
   static std::vector<u32> dirty;
